@@ -228,7 +228,16 @@ def v2_world(in_order=(), out_order=(), dialog=False, exceptions=False, extra_co
     """library=True: the rails are the SHIPPED flows `self check input` / `self check output` (rails in1 / out1); only
     their actions are replaced by stubs that follow the verdict script"""
     colang = "import core\nimport guardrails\n" + ("import llm\n" if dialog == "llm" else "")
-    if library:
+    if library == "jailbreak":
+        # input rail = the shipped `jailbreak detection heuristics` flow (a rail whose action answers "is it bad?");
+        # output rails are the stub rails
+        assert tuple(in_order) == ("in1",)
+        colang += "import nemoguardrails.library.jailbreak_detection\n"
+        colang += "".join(v2_rail(r, "output") for r in OUT_RAILS)
+        colang += "\nflow input rails $input_text\n  jailbreak detection heuristics\n"
+        if out_order:
+            colang += "\nflow output rails $output_text\n" + "".join(f"  {r} $output_text\n" for r in out_order)
+    elif library:
         assert set(in_order) <= {"in1"} and set(out_order) <= {"out1"}
         colang += "import nemoguardrails.library.self_check.input_check\nimport nemoguardrails.library.self_check.output_check\n"
         if in_order:
@@ -267,6 +276,10 @@ def v2_world(in_order=(), out_order=(), dialog=False, exceptions=False, extra_co
         async def self_check_output(context=None):
             return w._rail_sync("out1", (context or {}).get("bot_message")) is not False
 
+        async def jailbreak_heuristics(context=None):
+            return w._rail_sync("in1", (context or {}).get("user_message")) is False     # True = jailbreak attempt
+
         w.rails.register_action(self_check_input, name="SelfCheckInputAction")
         w.rails.register_action(self_check_output, name="SelfCheckOutputAction")
+        w.rails.register_action(jailbreak_heuristics, name="JailbreakDetectionHeuristicsAction")
     return w
